@@ -1,28 +1,244 @@
 from txcommon import *
+from txcommon import n as rN
+
+# codes of coq/Tx/WalletCorr.v and the additions to StoreCorr.v made for C01/C02 (on top of txcommon.CODES):
+# 3x = implementation differs from the wallet-layer MODEL, 13x = differs from the LEDGER (property violated)
+CODES01 = dict(CODES)
+CODES01.update({
+    30: "model:wallet_handler_error", 31: "model:wallet_calculate_balance", 32: "model:wallet_list_unspent",
+    33: "model:wallet_unspent_outputs", 34: "model:wallet_synced_to", 35: "model:wallet_query_error",
+    115: "watch_set_differs_from_ledger",
+    131: "wallet_balance_differs_from_ledger", 132: "wallet_list_unspent_differs_from_ledger",
+    133: "wallet_unspent_outputs_differ_from_ledger",
+    906: "generator:wallet_history_inconsistent", 908: "generator:wallet_translation_changes_facts",
+})
+WALLET_MODEL_CODES = [30, 31, 32, 33, 34, 35]
+WALLET_KINDS = ["wallet_balance_differs_from_ledger", "wallet_list_unspent_differs_from_ledger",
+                "wallet_unspent_outputs_differ_from_ledger"]
+REORG_TAGS = {"reorg_depth_%d" % d for d in range(1, 11)}
 
 
-class C01(TxCheck):
+def bid(b):
+    return rN(b)  # -1 (a hash the harness could not map back) becomes a value no block has
+
+
+def r_utxo(u):
+    return "{| u_op := %s; u_amt := %s; u_height := %s; u_hash := %s; u_coinbase := %s |}" % (
+        op(u["op"]), z(u["amt"]), z(u["h"]), bid(u["b"]), cbool(u["cb"]))
+
+
+def r_wnotif(x):
+    k = x["k"]
+    h, b, bt = z(x.get("h", 0)), bid(x.get("b", 0)), z(x.get("bt", 0))
+    if k == "connect":
+        return "WConnect %s %s %s" % (h, b, bt)
+    if k == "disconnect":
+        return "WDisconnect %s %s" % (h, b)
+    if k == "relevant":
+        if x.get("mined"):
+            return "WRelevant %s (Some (%s, %s, %s))" % (rN(x["t"]), h, b, bt)
+        return "WRelevant %s None" % rN(x["t"])
+    if k == "filtered":
+        return "WFiltered %s %s %s %s" % (h, b, bt, clist([rN(t) for t in x.get("ts") or []]))
+    if k == "store":
+        return "WStore (%s)" % r_event(x["e"])
+    raise ValueError(k)
+
+
+def r_wobs(o):
+    if o is None:
+        return "None"
+    lst = clist(["((%s, %s), %s)" % (z(q["min"]), z(q["max"]),
+                                     clist(["((%s, %s), %s, %s)" % (rN(e[0]), rN(e[1]), z(e[2]), z(e[3])) for e in q["out"] or []]))
+                 for q in o.get("list") or []])
+    uns = clist(["(%s, %s)" % (z(q["min"]), clist([r_utxo(u) for u in q["out"] or []])) for q in o.get("unsp") or []])
+    return "Some {| wo_err := %s; wo_tip := %s; wo_tiphash := %s; wo_bal := %s; wo_list := %s; wo_unsp := %s |}" % (
+        cbool(bool(o.get("err"))), z(o["tip"]), bid(o["tipb"]), clist([z(b) for b in o.get("bal") or []]), lst, uns)
+
+
+def r_wcase(c):
+    i, w = c["in"], c.get("w")
+    steps = []
+    if w and not w.get("skipped"):
+        for s in w["steps"]:
+            upto = s["ev"] + 1 if s["ev"] >= 0 else len(i["events"])
+            steps.append("\n   {| ws_upto := %d%%nat; ws_notifs := %s; ws_obs := %s |}" % (
+                upto, clist(["(%s, %s)" % (r_wnotif(x), cbool(bool(x.get("err")))) for x in s["notifs"] or []]), r_wobs(s.get("obs"))))
+    return "{| wc_universe := %s;\n  wc_minconfs := %s;\n  wc_events := %s;\n  wc_steps := %s |}" % (
+        clist(["\n   " + r_tx(t) for t in (i["universe"] or [])]) if steps else "[]",
+        clist([z(x) for x in (w or {}).get("minconfs") or []]),
+        clist([r_event(e) for e in i["events"]]) if steps else "[]", clist(steps))
+
+
+class TxWalletCheck(TxCheck):
+    """TxCheck plus the wallet layer (Tx/Wallet*.v) and this property's code table."""
+    TABLE = CODES01
+
+    def render_cases(self, cases):
+        return """From stdpp Require Import gmap list numbers.
+From Coq Require Import ZArith NArith.
+From Verif Require Import Tx.Store Tx.Ledger Tx.Hist Tx.StoreCorr Tx.Wallet Tx.WalletCorr.
+Definition cases : list tcase :=
+%s.
+Definition bad := Eval vm_compute in failures cases.
+Print bad.
+Definition wcases : list wcase :=
+%s.
+Definition wbad := Eval vm_compute in wfailures wcases.
+Print wbad.
+""" % (clist(["\n " + r_case(c) for c in cases]), clist(["\n " + r_wcase(c) for c in cases]))
+
+    def admissible(self, case, ev, code):
+        """failure codes that do not count for this case"""
+        # universes with zero-value outputs are outside wf_universe on purpose: ledger oracle and model only
+        return not (code == 905 and case["in"].get("zero_value"))
+
+    def evaluate_model(self, cases):
+        import concurrent.futures as cf
+        mism, logs, problems = [], "", []
+        # shards balanced by rendered size (wallet cases are several times larger)
+        sizes = sorted(((len(json.dumps(c["obs"])) + len(json.dumps(c.get("w") or "")), i) for i, c in enumerate(cases)), reverse=True)
+        nb = max(1, min(12, (len(cases) + 3) // 4), (len(cases) + 9) // 10)
+        bins, load = [[] for _ in range(nb)], [0] * nb
+        for sz, i in sizes:
+            k = load.index(min(load))
+            bins[k].append(i)
+            load[k] += sz
+        bins = [sorted(b) for b in bins if b]
+
+        def run(bi):
+            return bi, coq_eval(self.ID, self.render_cases([cases[i] for i in bins[bi]]), "cases_%d" % bi)
+        with cf.ThreadPoolExecutor(max_workers=12) as ex:
+            results = list(ex.map(run, range(len(bins))))
+        self.fail_detail = {}
+        for bi, (rc, out, err) in results:
+            if rc != 0:
+                problems.append("correspondence: cases file does not evaluate: " + (err or out)[-1500:])
+                continue
+            for ident, wallet in (("bad", False), ("wbad", True)):
+                printed = parse_printed(out, ident)
+                if printed is None:
+                    problems.append("correspondence: could not parse model output (%s): %s" % (ident, out[-500:]))
+                    continue
+                nums = [int(x) for x in re.findall(r"\d+", printed)]
+                for j in range(0, len(nums) - 2, 3):
+                    ci, ev, code = bins[bi][nums[j]], nums[j + 1], nums[j + 2]
+                    if self.admissible(cases[ci], ev, code):
+                        self.fail_detail.setdefault(ci, []).append((ev, code, wallet))
+        for ci, fl in sorted(self.fail_detail.items()):
+            c = cases[ci]
+            is_spec = lambda code: 100 <= code < 900 or code == 10
+            spec = sorted({self.TABLE.get(code, str(code)) for ev, code, wl in fl if is_spec(code)})
+            other = [(ev, code, wl) for ev, code, wl in fl if not is_spec(code)]
+            drift = [x for x in other if x[1] < 100 and x[1] not in self.MODEL_CODES]
+            other = [x for x in other if not (x[1] < 100 and x[1] not in self.MODEL_CODES)]
+            if drift:
+                self.drift = getattr(self, "drift", 0) + 1
+            spec = [k for k in spec if k in self.KINDS]
+            if c["in"].get("zero_value"):
+                # the zero-value stream is outside the theorems' hypotheses: its findings carry their own kind
+                spec = ["zero_value_output:" + k if k != "store_error" else k for k in spec]
+            for k in spec:
+                if k not in c["oracle"]:
+                    c["oracle"].append(k)
+            zv = "zero_value_output:" if c["in"].get("zero_value") else ""
+            c["first_failures"] = [dict(event=ev, what=(zv if 100 <= code < 900 else "") + self.TABLE.get(code, str(code)), wallet_step=wl)
+                                   for ev, code, wl in fl[:8]]
+            if other:
+                mism.append(ci)
+                gen = [code for ev, code, wl in other if code >= 900 and code != 902]
+                if gen:
+                    problems.append("generator produced an inadmissible case (index %d): %s" % (ci, [self.TABLE.get(x) for x in gen]))
+        return mism, logs, problems
+
+    def site_of(self, case, kind):
+        for f in case.get("first_failures") or []:
+            if f["what"] == kind:
+                if f.get("wallet_step"):
+                    steps = (case.get("w") or {}).get("steps") or []
+                    if f["event"] < len(steps):
+                        ks = [x["k"] for x in steps[f["event"]]["notifs"] or []]
+                        return "wallet:" + (ks[-1] if ks else "-")
+                    return "wallet"
+                ev = case["in"]["events"]
+                return ev[f["event"]]["k"] if f["event"] < len(ev) else "pair"
+        return case.get("site") or "*"
+
+    def sample(self, c):
+        s = TxCheck.sample(self, c)
+        w = c.get("w")
+        if w and not w.get("skipped"):
+            last = [st for st in w["steps"] if st.get("obs")][-1:]
+            s["wallet_run"] = dict(notifications=sum(len(st["notifs"] or []) for st in w["steps"]),
+                                   final_wallet_observation=last[0]["obs"] if last else None)
+        return s
+
+    def extra_coverage(self, cases):
+        cov = TxCheck.extra_coverage(self, cases)
+        wc = [c for c in cases if c.get("w") and not c["w"].get("skipped")]
+        cov["wallet_layer"] = dict(
+            histories_delivered_to_a_real_wallet=len(wc),
+            notifications=sum(len(st["notifs"] or []) for c in wc for st in c["w"]["steps"]),
+            wallet_observations=sum(1 for c in wc for st in c["w"]["steps"] if st.get("obs")),
+            histories_without_a_wallet_level_image=sum(1 for c in cases if (c.get("w") or {}).get("skipped")))
+        return cov
+
+
+class C01(TxWalletCheck):
     ID = "C01"
     MODE = "c01"
     LEVEL = "proof"
-    MODEL_CODES = [13, 14, 16, 902]
+    MODEL_CODES = [13, 14, 15, 16, 902] + WALLET_MODEL_CODES
     N_QUICK = 120
     N_THOROUGH = 4000
-    KINDS = ["balance_differs_from_ledger", "spendable_set_differs_from_ledger", "unconfirmed_set_differs_from_ledger", "store_error"]
+    KINDS = ["balance_differs_from_ledger", "spendable_set_differs_from_ledger", "unconfirmed_set_differs_from_ledger",
+             "watch_set_differs_from_ledger", "store_error"] + WALLET_KINDS
     RULE = ("node simulator (mempool with replacement, blocks in topological order, direct-to-block txs, coinbases, "
-            "100-block maturity gaps, reorgs of depth 1-3 delivered as one rollback / tip-down / with stale repeats, abandons, "
-            "re-deliveries; one third of the histories also interleave lease events) over incrementally generated universes of "
-            "3-12 txs; every event is validated by the Coq predicate event_ok inside the cases file. After EVERY event: Balance for "
-            "minconf in {0,1,2,6,100,101} x sync in tip+{0,1,99,100}, UnspentOutputs, OutputsToWatch, UnminedTxHashes, ListLockedOutputs "
-            "compared with the Coq model AND with the ledger spec. non-trivial = history contains a confirmation and at least one of: "
-            "reorg, conflict/replacement, abandon, same-block parent/child; distinct by input")
-    ASSUMPTIONS = ["int32/int64 wrap-around is outside the model: amounts < 2^53, heights < 2^20 in generated histories",
-                   "late discovery of credits (wallet key set changing inside one history) is not generated"]
+            "100-block maturity gaps, reorgs of depth 1-10 delivered as one rollback / tip-down / with stale repeats, abandons, "
+            "re-deliveries; RECONNECTION of detached blocks - same id/hash/height/time/transactions - in another parents-first order, "
+            "interleaved with stale unmined deliveries, after a deeper reorg of what was mined meanwhile, partially, with a rescan overlap, "
+            "incl. coinbases; one third of the histories also interleave lease events) over incrementally generated universes of "
+            "3-12 txs; amounts in half of the universes from {2^31-1 .. 2^32+1, 2^33+7, 2^40+12345, 21e14-1, 21e14, 2^53-1, 2^53, 2^53+1, 2^54}; "
+            "every event is validated by the Coq predicate event_ok inside the cases file. After EVERY event: Balance for "
+            "minconf in {0,1} + 4 drawn from {2,6,99,100,101,102,103,150,10^6} x sync in tip+{0,1,99,100}, UnspentOutputs, OutputsToWatch, UnminedTxHashes, "
+            "ListLockedOutputs compared with the Coq model AND with the ledger spec. One history in four is ALSO delivered to a real "
+            "wallet.Wallet through connectBlock / disconnectBlock / addRelevantTx / the filtered-block handler (every height connected, "
+            "rollbacks as tip-down BlockDisconnected, stale/future/repeated disconnects, transactions after / before the BlockConnected "
+            "or in one atomic notification, +100 blocks at the end): CalculateBalance, ListUnspent(5 ranges), UnspentOutputs per minconf after "
+            "every step compared with the wallet-layer model and with the ledger. One history in twelve has zero-value outputs "
+            "(outside wf_universe: model and ledger oracle only). non-trivial = history contains a confirmation and at least one of: "
+            "reorg, reconnect, conflict/replacement, abandon, same-block parent/child; distinct by input")
+    ASSUMPTIONS = ["int64 wrap-around is outside the model: the amounts of a universe sum below 2^63 (single amounts up to 2^54), heights < 2^20",
+                   "late discovery of credits (wallet key set changing inside one history) is not generated",
+                   "ListUnspent reports amounts as float64 BTC: an entry counts as correct when it equals Amount.ToBTC() of the true amount",
+                   "a refused re-delivery (Redeliver answered with an error and rolled back) is accepted like the idempotent "
+                   "re-application: the property only fixes the observable state after it"]
+    PARTIAL_CLAUSES = [
+        "wallet layer: the ledger comparison of CalculateBalance / ListUnspent / UnspentOutputs applies at the states where the synced height "
+        "covers every confirmed transaction (hypothesis of the property); between a bitcoind-order RelevantTx and its BlockConnected only model = implementation is compared",
+        "zero-value outputs are outside wf_universe (theorems) - compared with the model and with the ledger oracle only",
+    ]
+
+    def gen_args(self, tier, seed):
+        # witnesses (findings on the unchanged tree, repaired or recorded) run first
+        args = super().gen_args(tier, seed)
+        corpus = os.path.join(VERIF, "corpus", "C01")
+        pre = []
+        if os.path.isdir(corpus):
+            for f in sorted(os.listdir(corpus)):
+                if not f.endswith(".json") or f == "known_findings_entries.json":
+                    continue
+                p = os.path.join(WORK, "corpus_C01_" + f + "l")
+                os.makedirs(WORK, exist_ok=True)
+                with open(p, "w") as out:
+                    out.write(json.dumps({"in": json.load(open(os.path.join(corpus, f)))["in"]}) + "\n")
+                pre.append(["txstore", "-mode", "c01", "-replay", p])
+        return pre + args
 
     def nontrivial(self, c):
         t = set(c.get("tags", []))
-        return "ev_confirm" in t and bool(t & {"reorg_depth_1", "reorg_depth_2", "reorg_depth_3", "mempool_replacement",
-                                              "conflict_confirmed", "ev_abandon", "same_block_parent_child"})
+        return "ev_confirm" in t and bool(t & (REORG_TAGS | {"mempool_replacement", "conflict_confirmed", "unconfirmed_conflict_removed_by_confirmation", "ev_abandon",
+                                                            "same_block_parent_child", "reconnect_same_block"}))
 
 
 CHECK = C01
